@@ -119,6 +119,20 @@ def gen_arrays(ctx, tier):
         a[rng.random(shape) < rng.choice([0.0, 0.2, 0.7])] = np.nan
         a = relayout(a, int(rng.integers(0, 4)))
         yield a, f"rand{nd}d"
+    # integer / unsigned / narrow-float / boolean arrays (exact small values, heavy ties incl. zeros and the dtype's extremes)
+    for _ in range(nrand // 2):
+        nd = int(rng.integers(1, 3))
+        shape = tuple(int(rng.integers(1, 7)) for _ in range(nd))
+        dt = str(rng.choice(["int64", "int32", "int8", "uint8", "uint16", "uint64", "float32", "bool"]))
+        if dt == "bool":
+            a = rng.random(shape) < 0.5
+        elif dt.startswith("uint"):
+            a = rng.choice([0, 0, 1, 2, 5, np.iinfo(dt).max if dt != "uint64" else 2 ** 40], size=shape).astype(dt)
+        elif dt.startswith("int"):
+            a = rng.choice([-3, -1, 0, 0, 1, 4, np.iinfo(dt).min if dt in ("int8", "int32") else -2 ** 40], size=shape).astype(dt)
+        else:
+            a = rng.choice([-1.5, 0.0, 0.25, 3.0, np.nan], size=shape).astype(dt)
+        yield relayout(a, int(rng.integers(0, 4))), f"dtype:{dt}"
 
 
 def gen_batches(ctx, tier):
